@@ -58,3 +58,12 @@ package netpoll
 //@   ghostdef trigprio := priority
 //@   ghostdef trigpoller := p
 //@   ensures err != errorx.ErrEngineShutdown
+//
+// Polling: the epoll_wait loop. It runs the callback for ready descriptors and the queued tasks until one of them reports
+// an error it does not ignore; nothing of the loop / engine / options / poller / listener objects changes, everything else
+// (connections, buffers, kernel ghosts) may. It never sweeps a loop's registry and never signals engine shutdown itself.
+//@ func (p *Poller) Polling(callback PollEventHandler) (err error)
+//@   noverify epoll_wait loop, eventfd and task queues (C03, C06)
+//@   requires p != nil
+//@   modifies-all-except gnet.eventloop, gnet.engine, gnet.Options, Poller, gnet.listener, gnet.asyncWriteHook, gnet.asyncWritevHook, map[int]*gnet.listener, ghost:nsweep, ghost:shutsig
+
